@@ -250,6 +250,8 @@ def run(check, an: Analysis):
     from . import c10, c08
     c10.run(SubCheck(check, 'A', 'Queue'), an)
     c08.check_subscription_paired(SubCheck(check, 'A', 'Notification'), an, 'S')
+    from . import _scope as _sc
+    _sc.check_scope_core(check, an, skip=('close', 'foreign', 'task-close'))
     check.stats.update(an.stats())
 
 
